@@ -35,7 +35,7 @@ theorem to_bv_spec (rm : RM) (a w v : Nat) (ha : a < 2 ^ 64) :
 
 -- non-vacuity: 2.5 under RNE/RNA/RTZ (8 bits) and -1.5 under RTP
 example : toSBV D .RNE 0x4004000000000000 8 = some 2 ∧ toSBV D .RNA 0x4004000000000000 8 = some 3 ∧
-    toSBV D .RTZ 0x4004000000000000 8 = some 2 ∧ toSBV D .RTP 0xBFF8000000000000 8 = some 255 := by decide
+    toSBV D .RTZ 0x4004000000000000 8 = some 2 ∧ toSBV D .RTP 0xBFF8000000000000 8 = some 255 := by decide +kernel
 
 /-! ## fold = specification, DOUBLE, round to nearest even (the default mode) — every operand -/
 
@@ -62,7 +62,7 @@ theorem fold_cmp_double (a b : Nat) (ha : a < 2 ^ 64) (hb : b < 2 ^ 64) :
 theorem div_by_zero_spec (rm : RM) (a b : Nat) (hb : isZero D b = true) (ha : isNaN D a = false) :
     divByZero a b = div D rm a b := divByZero_spec rm a b hb ha
 
-example : div D .RNE 0 0 = D.nanBits ∧ div D .RNE 0xFFF0000000000000 0 = 0xFFF0000000000000 := by decide
+example : div D .RNE 0 0 = D.nanBits ∧ div D .RNE 0xFFF0000000000000 0 = 0xFFF0000000000000 := by decide +kernel
 
 /-! ## FLOAT: one binary64 rounding followed by a binary32 rounding -/
 
@@ -86,13 +86,13 @@ theorem fold_float_rne_partial (hadd : DoubleRoundingInnocuous add) (hmul : Doub
 /-- the rounding-mode argument is ignored: 1 + 2^-60 toward +∞ folds to 1, the specification gives the next double -/
 theorem fold_ignores_rm_witness :
     fpAdd D .RTP 0x3FF0000000000000 0x3C30000000000000 = 0x3FF0000000000000 ∧
-    add D .RTP 0x3FF0000000000000 0x3C30000000000000 = 0x3FF0000000000001 := by decide
+    add D .RTP 0x3FF0000000000000 0x3C30000000000000 = 0x3FF0000000000001 := by decide +kernel
 
 /-- 2^53 + 2^29 + 1 as a 64-bit integer to FLOAT: `float(int)` rounds to 2^53 + 2^29 (a tie for binary32), the second
 rounding goes to even; one rounding gives the upper neighbour -/
 theorem int_to_float_double_rounding_witness :
     fpToFP_sbv F .RNE 64 9007199791611905 = .fp F 1509949440 ∧ ofSBV F .RNE 64 9007199791611905 = 1509949441 := by
-  decide
+  decide +kernel
 
 /-- RNA was mapped to ROUND_UP before the fix: that is not ties-away -/
 theorem rna_round_up_wrong : decRoundUp .up false false 1 5 ≠ roundUp .RNA false false 1 5 := roundUp_up_ne_rna
@@ -104,6 +104,6 @@ theorem test_spec_samples :
     div D .RNE 0x3FF0000000000000 0x4008000000000000 = 0x3FD5555555555555 ∧
     mul F .RTZ 0x7F7FFFFF 0x7F7FFFFF = 0x7F7FFFFF ∧ mul F .RNE 0x7F7FFFFF 0x7F7FFFFF = 0x7F800000 ∧
     sub D .RTN 0x3FF0000000000000 0x3FF0000000000000 = 0x8000000000000000 ∧
-    cvt D F .RNE 0x36A0000000000000 = 1 ∧ cvt D F .RNE 0x3690000000000000 = 0 := by decide
+    cvt D F .RNE 0x36A0000000000000 = 1 ∧ cvt D F .RNE 0x3690000000000000 = 0 := by decide +kernel
 
 end Claripy.Props.C02
